@@ -163,6 +163,37 @@ def run(ctx):
         ctx.check(any((capkey.match(k) or und.match(k)) and p is True for k, p in g) or
                   any(k.startswith("((") and " || " in k and p is True and ("maxSize" in k) for k, p in g), "drop-counted-on-cap-edge", "guarded_by", dbg.loc(w), "drops are counted on the over-cap edge",
                   "numDiscarded changes outside the over-cap edge")
+    # ... and a counted drop is reported: the count is picked up by the flusher thread, at the latest in its last round at shutdown.  The
+    # flusher therefore exists whenever a drop can be counted: it is started in the constructor, or - if started lazily - before any
+    # path that counts a drop.
+    starts = []
+    for g_ in P.fns.values():
+        if not g_.cls.endswith("::Log") and g_.cls != "Oomd::Log":
+            o_ = g_
+            while o_.kind == "lambda" and o_.d.get("parentfn") in P.fns:
+                o_ = P.fns[o_.d["parentfn"]]
+            if o_.cls != "Oomd::Log":
+                continue
+        for i_, n_ in enumerate(g_.nodes):
+            if n_["k"] in ("call", "bin") and n_.get("op") == "=" and g_.pos_of(i_) is not None and \
+                    g_.text(n_.get("recv", n_.get("l", -1))).replace("this->", "") == "io_thread_":
+                starts.append((g_, i_))
+    if not starts:
+        ctx.broken("drop-count-has-a-reporter", "anchor", dbg.loc(), "no start of io_thread_ found in class Log")
+    else:
+        lazy = [(g_, i_) for g_, i_ in starts if g_.kind != "ctor"]
+        okr = True
+        why = ""
+        if lazy:
+            for w in disc:
+                ev_s = {i_: [("set", "started")] for g_, i_ in lazy if g_ is dbg}
+                fs_ = Flow(P, dbg, events=ev_s, cg=cg,
+                           edge_tokens=lambda k, p: ["started"] if (isinstance(k, str) and re.search(r"io_thread_\.joinable\(\)$", k) and p is True) else None)
+                if not fs_.must(w, "started"):
+                    okr, why = False, "the drop at %s can be counted before the flusher thread was ever started (it is started lazily at %s)" % (dbg.loc(w), lazy[0][0].loc(lazy[0][1]))
+        ctx.check(okr, "drop-count-has-a-reporter", "must_precede (thread start)", (lazy[0][0].loc(lazy[0][1]) if lazy else starts[0][0].loc(starts[0][1])),
+                  "the flusher thread that reports dropped lines exists before any drop can be counted",
+                  why + ": if every line a logger ever sees is dropped, no thread exists, ~Log joins nothing and the 'N messages dropped' report never appears")
     ev = {i: [("set", "enqueued")] for i in enq}
     ev.update({w: [("set", "counted-drop")] for w in disc})
     fd2 = Flow(P, dbg, events=ev, cg=cg, edge_tokens=lambda k, p: ["over-cap"] if ((capkey.match(k) or und.match(k)) and p is True) else None)
